@@ -55,11 +55,16 @@ PROPS = {
         'level': 'proof',
         'claim': 'Constructor: rejected exactly when neighbouring slots overlap or a baud rate exceeds its slot, all 16 '
                  'per-channel arrays permuted by one sorting permutation; select_channels / demux / __add__: every array '
-                 'restricted/merged with ONE common index map, in-band channels all kept, frequency order restored.',
+                 'restricted/merged with ONE common index map, in-band channels all kept, frequency order restored; a merge of '
+                 'three bands keeps every channel; a user carrier list gives every channel the figures of the carrier declared '
+                 'at its frequency whatever the order of the list.',
         'level_note': 'numpy argsort/mask indexing/append are assumed contracts; filter_si, find_common_range and the '
-                      'multiband dispatch are not yet under contract',
+                      'multi-band amplifier dispatch are not under contract: the clauses "channels outside the common band removed '
+                      'once, the others kept once through any mix of single- and multi-band amplifiers" are a bounded stand-in '
+                      '(random band sets against an interval-intersection oracle; six amplifier mixes of the shipped multiband '
+                      'library with channels placed around every band edge)',
         'trusted': NUMPY_TRUST,
-        'extra': [],
+        'extra': [{'name': 'bands', 'kind': 'bounded', 'script': 'bounded/bands.py', 'timeout': 1800}],
     },
     'C13': {
         'level': 'proof',
